@@ -1034,12 +1034,10 @@ func RaceWith[T any](sources ...Observable[T]) func(Observable[T]) Observable[T]
 			mu := sync.Mutex{}
 
 			unsubscribeOthers := func(except int) {
+				unsubscription := NewSubscription(nil)
+
 				verifPoint("operator_combining:RaceWith:lock#0", nil)
 				mu.Lock()
-				defer verifPoint("operator_combining:RaceWith:ret#0", nil)
-				defer mu.Unlock()
-
-				unsubscription := NewSubscription(nil)
 
 				for i := range subscriptions {
 					if i != except && subscriptions[i] != nil {
@@ -1047,6 +1045,11 @@ func RaceWith[T any](sources ...Observable[T]) func(Observable[T]) Observable[T]
 					}
 				}
 
+				mu.Unlock()
+				verifPoint("operator_combining:RaceWith:ret#0", nil)
+
+				// Unsubscribe out of the lock: the winner takes the same lock after each notification, so a
+				// teardown that waits for its producer (a clean shutdown) would deadlock with it.
 				unsubscription.Unsubscribe()
 			}
 
